@@ -259,4 +259,103 @@ theorem runComps_respell (cs : List FieldComp) (hci : ∀ c ∈ cs, c.mode = .ca
         simp [SameRespelled]
       all_goals (intro h1 h2; exact ⟨by rw [h1], h2⟩)
 
+/-! ### all of it at once: another order, unknown pairs, other case patterns -/
+
+/-- no component accepts any of these pairs -/
+def Unmatched (cs : List FieldComp) (e : List Pair) : Prop := ∀ p ∈ e, ∀ c ∈ cs, matchesComp c p = false
+
+theorem respell_id (p : Pair) : respell id p = p := rfl
+
+theorem map_respell_id (l : List Pair) : l.map (respell id) = l := by
+  induction l with
+  | nil => rfl
+  | cons p ps ih => rw [List.map_cons, ih, respell_id]
+
+theorem map_lower_respell (f : Bytes → Bytes) (hf : ∀ k, asciiLower (f k) = asciiLower k) (d : List Pair) :
+    (d.map (respell f)).map (fun p => asciiLower p.1) = d.map (fun p => asciiLower p.1) := by
+  rw [List.map_map]
+  apply List.map_congr_left
+  intro p _
+  simp [respell, hf]
+
+/-- with pairwise different lower-cased names, a component that is not positional accepts at most one pair -/
+theorem unamb_of_lower_nodup (cs : List FieldComp) (hno : ∀ c ∈ cs, c.mode ≠ .anyName) (d : List Pair)
+    (hnd : (d.map fun p => asciiLower p.1).Nodup) : ∀ c ∈ cs, (d.filter (matchesComp c)).length ≤ 1 := by
+  intro c hc
+  match hfl : d.filter (matchesComp c) with
+  | [] => simp
+  | [_] => simp
+  | a :: b :: t =>
+    exfalso
+    have hsub : ((a :: b :: t).map fun p => asciiLower p.1).Nodup := by
+      rw [← hfl]; exact List.Nodup.sublist (List.filter_sublist.map _) hnd
+    have hne : asciiLower a.1 ≠ asciiLower b.1 := by
+      simp only [List.map_cons, List.nodup_cons, List.mem_cons] at hsub
+      exact fun h => hsub.1 (Or.inl h)
+    have ha : matchesComp c a = true := (List.mem_filter.mp (by rw [hfl]; simp : a ∈ d.filter (matchesComp c))).2
+    have hb : matchesComp c b = true := (List.mem_filter.mp (by rw [hfl]; simp : b ∈ d.filter (matchesComp c))).2
+    have hm := hno c hc
+    cases hmode : c.mode with
+    | anyName => exact hm hmode
+    | exact =>
+      simp [matchesComp, nameMatches, hmode] at ha hb
+      exact hne (by rw [ha, hb])
+    | caseInsensitive =>
+      simp [matchesComp, nameMatches, hmode] at ha hb
+      exact hne (by rw [ha, hb])
+
+/-- the slots of a run (or its error) -/
+def slotsOf (r : Except PErr (List Slot × List Pair)) : Except PErr (List Slot) := r.map Prod.fst
+
+/-- ORDER, UNKNOWN PAIRS AND CASE TOGETHER.  `d'` holds the pairs of `d`, their names respelled by a
+lower-case-preserving `f` (the identity unless every component compares case-insensitively), in any order, plus pairs no
+component accepts; no two names of `d'` are equal up to case; no component is positional.  Then every component is
+handed the same text. -/
+theorem runComps_variant (cs : List FieldComp) (hno : ∀ c ∈ cs, c.mode ≠ .anyName) (d d' e : List Pair)
+    (f : Bytes → Bytes) (hf : ∀ k, asciiLower (f k) = asciiLower k)
+    (hmode : (∀ c ∈ cs, c.mode = .caseInsensitive) ∨ f = id)
+    (hperm : d'.Perm (d.map (respell f) ++ e)) (he : Unmatched cs e)
+    (hnd' : (d'.map fun p => asciiLower p.1).Nodup) :
+    slotsOf (runComps cs d') = slotsOf (runComps cs d) := by
+  have hnd1 : (((d.map (respell f)) ++ e).map fun p => asciiLower p.1).Nodup := (hperm.map _).nodup_iff.mp hnd'
+  have hnd2 : ((d.map (respell f)).map fun p => asciiLower p.1).Nodup := by
+    rw [List.map_append, List.nodup_append] at hnd1
+    exact hnd1.1
+  have hnd : (d.map fun p => asciiLower p.1).Nodup := by rwa [map_lower_respell f hf] at hnd2
+  have h2 := runComps_perm_extra cs (d.map (respell f)) d' e hperm he (unamb_of_lower_nodup cs hno _ hnd2)
+  rcases hmode with hci | hid
+  · have h1 := runComps_respell cs hci f hf d hnd
+    revert h1 h2
+    cases runComps cs d <;> cases runComps cs (d.map (respell f)) <;> cases runComps cs d' <;>
+      simp [SameRespelled, SameUpTo, slotsOf, Except.map]
+    · intro h1 h2; exact h1.trans h2
+    · intro h1 _ h2 _; exact h1.trans h2
+  · subst hid
+    rw [map_respell_id] at h2
+    revert h2
+    cases runComps cs d <;> cases runComps cs d' <;> simp [SameUpTo, slotsOf, Except.map]
+    all_goals (intros; simp_all)
+
+/-- the same for `parsePairs` (the dictionary of pairs whose names differ is the list of pairs) -/
+theorem parsePairs_variant (T : FieldTable) (hno : ∀ c ∈ T.comps, c.mode ≠ .anyName) (ps ps' e : List Pair)
+    (f : Bytes → Bytes) (hf : ∀ k, asciiLower (f k) = asciiLower k)
+    (hmode : (∀ c ∈ T.comps, c.mode = .caseInsensitive) ∨ f = id)
+    (hperm : ps'.Perm (ps.map (respell f) ++ e)) (he : Unmatched T.comps e)
+    (hnd' : (ps'.map fun p => asciiLower p.1).Nodup) :
+    (parsePairs T ps').map (·.slots) = (parsePairs T ps).map (·.slots) := by
+  have lowerToNames (l : List Pair) (h : (l.map fun p => asciiLower p.1).Nodup) : (l.map (·.1)).Nodup := by
+    have : (l.map fun p => asciiLower p.1) = (l.map (·.1)).map asciiLower := by simp
+    rw [this] at h
+    exact nodup_of_nodup_map asciiLower _ h
+  have hnd1 : (((ps.map (respell f)) ++ e).map fun p => asciiLower p.1).Nodup := (hperm.map _).nodup_iff.mp hnd'
+  have hnd : (ps.map fun p => asciiLower p.1).Nodup := by
+    rw [List.map_append, List.nodup_append] at hnd1
+    have := hnd1.1
+    rwa [map_lower_respell f hf] at this
+  have := runComps_variant T.comps hno ps ps' e f hf hmode hperm he hnd'
+  unfold parsePairs
+  rw [odOfList_nodup ps (lowerToNames ps hnd), odOfList_nodup ps' (lowerToNames ps' hnd')]
+  revert this
+  cases runComps T.comps ps <;> cases runComps T.comps ps' <;> simp [slotsOf, Except.map]
+
 end Cp.Text
